@@ -105,6 +105,27 @@ async fn run_layout(run: usize, ups: &[Value], lay: &Value, ckpt_l: u64, wal_fil
             return rec;
         }
     }
+    // the same image read through a store that hands out ONE segment download with a flipped bit (transient:
+    // the stored object is intact): recovery must fail, or return the whole state - never a part of it
+    {
+        let sc = crate::stream::ScriptedObjectStore::new(false);
+        {
+            let mut g = sc.inner.lock().unwrap();
+            if let Ok(lst) = store.list(PREFIX, None).await {
+                for o in lst.objects {
+                    if let Ok(d) = store.get(&o.key).await {
+                        g.objs.insert(o.key.clone(), d);
+                    }
+                }
+            }
+            g.faults.push((0, "get_seg".into(), "corrupt".into()));
+        }
+        let rm2 = RecoveryManager::new(sc.clone(), PREFIX, 1);
+        rec["corrupt_read"] = match rm2.recover().await {
+            Ok(rs) => json!({"ok": true, "fold": fold_state(rs.checkpoint_state, &rs.deltas)}),
+            Err(e) => json!({"ok": false, "fold": [], "err": e.to_string()}),
+        };
+    }
     match rm.recover_with_wal(&rot).await {
         Ok(rs) => {
             rec["fold_wal"] = fold_state(rs.checkpoint_state.clone(), &rs.deltas);
@@ -141,7 +162,9 @@ fn random_updates(rng: &mut impl Rng) -> Vec<Value> {
                 0 | 1 => json!({"id": id, "k": format!("h{}", rng.gen_range(1..=2)), "t": "hset", "f": format!("f{}", rng.gen_range(1..=3)), "v": format!("v{id}"), "ts": ts, "r": r}),
                 2 => json!({"id": id, "k": format!("h{}", rng.gen_range(1..=2)), "t": "hdel", "f": format!("f{}", rng.gen_range(1..=3)), "ts": ts, "r": r}),
                 3 => json!({"id": id, "k": format!("s{}", rng.gen_range(1..=2)), "t": "del", "ts": ts, "r": r}),
-                _ => json!({"id": id, "k": format!("s{}", rng.gen_range(1..=2)), "t": "set", "v": format!("v{id}"), "ts": ts, "r": r, "exp": if rng.gen_bool(0.3) { 5000 } else { 0 }}),
+                _ => json!({"id": id, "k": format!("s{}", rng.gen_range(1..=2)), "t": "set", "v": format!("v{id}"), "ts": ts, "r": r, "exp": if rng.gen_bool(0.3) { 5000 } else { 0 },
+                            // now and then a value of 17 MiB (a legal string; no reader may give up on it)
+                            "pad": if rng.gen_range(0..60) == 0 { 17usize << 20 } else { 0 }}),
             }
         })
         .collect()
